@@ -10,11 +10,13 @@
 package main
 
 import (
+	"bytes"
 	"encoding/hex"
 	"encoding/json"
 	"flag"
 	"fmt"
 	"io"
+	"net/http"
 	"os"
 	"path/filepath"
 	"sort"
@@ -85,12 +87,44 @@ func script(keys []proxykit.Key) func(f *proxykit.Frame) proxykit.Reply {
 			return proxykit.Reply{Kind: proxykit.ReplyHTTPError, Status: 502, Body: []byte("Bad Gateway")}
 		case "t_drop":
 			return proxykit.Reply{Kind: proxykit.ReplyDrop}
+		case "t_slow":
+			return proxykit.Reply{Kind: proxykit.ReplyResult, Result: json.RawMessage(`"slow"`), Delay: 40 * time.Millisecond}
+		case "t_slow_err":
+			return proxykit.Reply{Kind: proxykit.ReplyRPCError, Code: -32000, Message: "slow failure", Delay: 40 * time.Millisecond}
 		case "t_rawnull":
 			return proxykit.Reply{Kind: proxykit.ReplyRawBody, Body: []byte("null")}
 		}
 		return proxykit.Reply{Kind: proxykit.ReplyResult, Result: json.RawMessage(`"0x1"`)}
 	}
 }
+
+// post sends the body; tc.mode selects a transport variant of the same bytes (the property quantifies
+// over the bytes POSTed, not over how the client frames them)
+func post(p *proxykit.Proxy, tc tcase) proxykit.Response {
+	if tc.mode == "" {
+		return p.Post(tc.body)
+	}
+	var rd io.Reader = bytes.NewReader(tc.body)
+	if tc.mode == "chunked" {
+		rd = struct{ io.Reader }{rd} // hides the length: the client uses Transfer-Encoding: chunked
+	}
+	req, _ := http.NewRequest(http.MethodPost, p.URL, rd)
+	switch tc.mode {
+	case "text-plain":
+		req.Header.Set("Content-Type", "text/plain")
+	case "chunked":
+		req.Header.Set("Content-Type", "application/json")
+	}
+	res, err := altClient.Do(req)
+	if err != nil {
+		return proxykit.Response{Err: err}
+	}
+	defer res.Body.Close()
+	b, err := io.ReadAll(res.Body)
+	return proxykit.Response{Status: res.StatusCode, Body: b, Err: err}
+}
+
+var altClient = &http.Client{Timeout: 60 * time.Second}
 
 func tail(s string, n int) string {
 	if len(s) > n {
@@ -170,7 +204,7 @@ func (rn *runner) runSequence(worker, seq int, cases []tcase) ([]result, error) 
 	for i, tc := range cases {
 		writeCurrent(rn.out, worker, map[string]interface{}{"sequence": seq, "position": i, "kind": tc.kind, "body": describeBody(tc.body), "body_dsl": cv.Compress(tc.body)})
 		res := result{tc: tc, seq: seq, pos: i}
-		res.resp = p.Post(tc.body)
+		res.resp = post(p, tc)
 		res.obs, res.problems = observe(res.resp)
 		res.probeOK = p.Probe()
 		if !res.probeOK {
@@ -306,6 +340,9 @@ func main() {
 				continue
 			}
 			st.Hit("kind:" + strings.SplitN(res.tc.kind, "/", 2)[0])
+			if res.tc.mode != "" {
+				st.Hit("transport:" + res.tc.mode)
+			}
 			st.Hit("case:" + res.tc.kind)
 			st.Hit(fmt.Sprintf("http-status:%d", res.resp.Status))
 			switch l := len(res.tc.body); {
@@ -341,7 +378,7 @@ func main() {
 			}
 			table := txnTable(res.tc.body, tree, keys, st.Hit)
 			term := fmt.Sprintf("(C16Case %s %s %s %s)", cv.Compress(res.tc.body).Coq(), verdict, table, res.obs)
-			desc := map[string]interface{}{"kind": res.tc.kind, "body": describeBody(res.tc.body), "body_text": textOf(res.tc.body), "body_dsl": cv.Compress(res.tc.body),
+			desc := map[string]interface{}{"kind": res.tc.kind, "transport": res.tc.mode, "body": describeBody(res.tc.body), "body_text": textOf(res.tc.body), "body_dsl": cv.Compress(res.tc.body),
 				"reply_status": res.resp.Status, "reply_body": textOf(res.resp.Body), "sequence": res.seq, "position": res.pos}
 			w.Add(term, desc)
 			if len(st.Samples) < 12 && (res.pos == 3 || strings.HasPrefix(res.tc.kind, "corpus/")) {
@@ -399,7 +436,7 @@ func doReplay(rn *runner, path string) {
 	} else {
 		body, _ = hex.DecodeString(c.BodyHex)
 	}
-	results, err := rn.runSequence(0, 0, []tcase{{body, "replay/" + c.Kind}})
+	results, err := rn.runSequence(0, 0, []tcase{{body: body, kind: "replay/" + c.Kind}})
 	if err != nil {
 		fmt.Println("cannot start ffsigner:", err)
 		return
